@@ -236,6 +236,9 @@ def gen_tempo(rng, shape):
         ref = np.array([a, 0.0])
     if shape in ("empty_est", "both_empty"):
         est = np.array([0.0, 0.0])
+    if shape == "clustered":                    # both estimates close to the same reference tempo
+        t = rng.choice([a, b])
+        est = np.array([t * rng.choice([1.0, 0.98, 1.03]), t * rng.choice([1.0, 1.02, 0.96])])
     if rng.random() < 0.3:
         est = est[::-1].copy()
     return ref, w, est
@@ -411,7 +414,7 @@ def catalogue(me):
                 "strict": True, "beta": 2.0, "velocity_tolerance": 0.25})
     T["tempo"] = Task("tempo", gen_tempo, [
         ("tempo.detection", me.tempo.detection, ident, [{}, {"tol": 0.125}, {"tol": 0.0625}]),
-    ], kw_pool={"tol": 0.125}, shapes=["random", "random", "identical", "single", "empty_est"])
+    ], kw_pool={"tol": 0.125}, shapes=["random", "random", "identical", "single", "empty_est", "clustered"])
     T["key"] = Task("key", gen_key, [
         ("key.weighted_score", me.key.weighted_score, ident, [{}]),
     ], shapes=["random", "identical"])
